@@ -1723,6 +1723,13 @@ func resolveIndex(v, index reflect.Value, indexAsStr string) (reflect.Value, err
 			if cache, ok = cachedStructsFieldIndex[typ]; !ok {
 				cache = make(map[string][]int)
 				buildCache(typ, cache, nil)
+				// buildCache does not descend into embedded pointers. A field promoted through one hides,
+				// as in Go, a deeper field of the same name that buildCache did find: leave it to the slow path.
+				for name, index := range cache {
+					if f, ok := typ.FieldByName(name); ok && len(f.Index) < len(index) {
+						delete(cache, name)
+					}
+				}
 				cachedStructsFieldIndex[typ] = cache
 			}
 			cachedStructsMutex.Unlock()
